@@ -429,7 +429,11 @@ func (r *Recomposer) recomp(v any, rv reflect.Value) {
 		switch {
 		case et.Kind() == reflect.Interface:
 			for k, m := range vm {
-				rv.SetMapIndex(reflect.ValueOf(k), reflect.ValueOf(r.recompAny(m)))
+				if mv := r.recompAny(m); mv != nil {
+					rv.SetMapIndex(reflect.ValueOf(k), reflect.ValueOf(mv))
+				} else {
+					rv.SetMapIndex(reflect.ValueOf(k), reflect.Zero(et))
+				}
 			}
 		case et.Kind() == reflect.Ptr:
 			et = et.Elem()
@@ -521,8 +525,9 @@ func (r *Recomposer) recomp(v any, rv reflect.Value) {
 			}
 		}
 	case reflect.Interface:
-		v = r.recompAny(v)
-		rv.Set(reflect.ValueOf(v))
+		if v = r.recompAny(v); v != nil {
+			rv.Set(reflect.ValueOf(v))
+		}
 
 	case reflect.Bool:
 		rv.Set(reflect.ValueOf(v))
@@ -585,8 +590,9 @@ func (r *Recomposer) setValue(v any, rv reflect.Value, sf *reflect.StructField) 
 	case reflect.String:
 		rv.Set(reflect.ValueOf(v).Convert(rv.Type()))
 	case reflect.Interface:
-		v = r.recompAny(v)
-		rv.Set(reflect.ValueOf(v))
+		if v = r.recompAny(v); v != nil {
+			rv.Set(reflect.ValueOf(v))
+		}
 	case reflect.Ptr:
 		ev := reflect.New(rv.Type().Elem())
 		r.recomp(v, ev)
